@@ -1,19 +1,92 @@
 ------------------------------- MODULE Gen_C15 -------------------------------
-(* D: SharedState (all interleavings of MaxOps operations, NoRace).  F: every multiset of *)
-(* operations of the catalogue up to size MaxOps becomes one concurrent run of the real   *)
-(* code under the race detector.                                                          *)
+(* F for C15: the concurrent runs.  A case is a multiset of catalogue operations (SharedState)  *)
+(* plus the process configuration in force when the goroutines start; it becomes one run of the *)
+(* real code under the race detector (8 goroutines per operation, released together).           *)
+(*   flat      every multiset of <= MaxFlat flat operations                                      *)
+(*   product   every usable <<entry, feature>> alone (8 goroutines of it: op || op), and pairs: *)
+(*             Pairs = "cover": every pair of entries (meeting in a feature chosen by Seed) and  *)
+(*                              every pair of features (behind an entry chosen by Seed)          *)
+(*             Pairs = "all":   every pair of product operations                                 *)
+(*   media     every <<side, declared.sent>> alone, next to a plain JSON body of the other side,*)
+(*             and the not-yet-registered type on both sides at once                             *)
+(*   cross     every flat operation next to one product and one media operation (by Seed)        *)
+(*   init      the configurations a process may be in when validations start (uniqueness checker *)
+(*             replaced / reset to nil, error details off): operations that read that state      *)
 EXTENDS Naturals, Sequences, FiniteSets, TLC, Json, CSV
-CONSTANT MaxOps
+CONSTANTS MaxFlat, Pairs, Seed
 
-OpNames == <<"find_mux", "find_legacy", "vreq_params", "vreq_params_delete", "vreq_body_pattern", "vreq_body_unique", "vreq_body_defaults",
-             "vresp", "visitjson", "gen_newtype", "gen_sametype", "vreq_body_pattern_customregex", "vreq_secure_body", "vreq_multipart_addprops", "vreq_json_addprops",
-             "vreq_form_sharedopts", "vreq_json_defaults_sharedopts", "internal_validate_doc">>
-N == Len(OpNames)
+SS == INSTANCE SharedState WITH DefaultCopied <- TRUE, RouteCopied <- TRUE, SettingsPerCall <- TRUE, VisitReadsSettings <- TRUE,
+         RegistryInitOnly <- TRUE, TypeInfosLocked <- TRUE, PatternCacheAtomic <- TRUE, UriCacheLocked <- TRUE,
+         UniqueCheckerSet <- TRUE, WithWriters <- FALSE, MaxOps <- 1, prog <- <<>>, held <- <<>>
 
-VARIABLE ms      \* non-decreasing sequence of indices into OpNames = a multiset
-Init == ms \in {<<i>> : i \in 1..(N - 1)}           \* internal_validate_doc (a documented writer) is never generated
-Next == /\ Len(ms) < MaxOps
-        /\ \E i \in ms[Len(ms)]..(N - 1) : ms' = Append(ms, i)
-Spec == Init /\ [][Next]_ms
-Emit == CSVWrite("%1$s", <<ToJson([ops |-> [i \in DOMAIN ms |-> OpNames[ms[i]]]])>>, "cases.ndjson")
+(* ordered, so that multisets are enumerated once and Seed can rotate through them *)
+FlatSeq == <<"find_mux", "find_legacy", "find_mux_servers", "find_legacy_servers", "vreq_params", "vreq_params_delete", "vreq_body_pattern",
+             "vreq_body_unique", "vreq_body_defaults", "vresp", "visitjson", "gen_newtype", "gen_sametype", "gen_nested", "gen_customizer",
+             "vreq_body_pattern_customregex", "vreq_secure_body", "vreq_multipart_addprops", "vreq_json_addprops",
+             "vreq_form_sharedopts", "vreq_json_defaults_sharedopts", "load_cached", "doc_marshal">>
+EntrySeq == <<"visit", "visit_typed", "visit_opts", "param_query", "param_header", "param_multi", "req_body", "resp_body", "resp_header", "middleware", "param_query_legacy", "req_body_legacy">>
+FeatureSeq == <<"anyof", "oneof", "allof", "pattern", "format_date", "format_custom", "format_int32", "number", "enum", "minmax",
+                "unique", "not", "object", "discriminator">>
+ASSUME {FlatSeq[i] : i \in DOMAIN FlatSeq} \subseteq SS!FlatOps        \* (vreq_body_pattern_first / _again are the two phases of vreq_body_pattern)
+ASSUME {EntrySeq[i] : i \in DOMAIN EntrySeq} = SS!Entries /\ {FeatureSeq[i] : i \in DOMAIN FeatureSeq} = SS!Features
+NF == Len(FlatSeq)  NE == Len(EntrySeq)  NT == Len(FeatureSeq)
+
+Op(e, f) == [e |-> e, f |-> f]
+Flat(i) == Op(FlatSeq[i], "-")
+Case(ops, init) == [ops |-> ops, init |-> init]
+
+FlatCases ==
+   {Case(<<Flat(i)>>, "default") : i \in 1..NF}
+   \cup {Case(<<Flat(i), Flat(j)>>, "default") : <<i, j>> \in {p \in (1..NF) \X (1..NF) : p[1] <= p[2]}}
+   \cup (IF MaxFlat < 3 THEN {} ELSE
+         {Case(<<Flat(p[1]), Flat(p[2]), Flat(p[3])>>, "default") : p \in {q \in (1..NF) \X (1..NF) \X (1..NF) : q[1] <= q[2] /\ q[2] <= q[3]}})
+
+ProductIdx == {p \in (1..NE) \X (1..NT) : SS!Usable(EntrySeq[p[1]], FeatureSeq[p[2]])}
+P(p) == Op(EntrySeq[p[1]], FeatureSeq[p[2]])
+(* the k-th (cyclically, from a Seed-dependent start) feature usable behind both entries / entry usable for both features *)
+FeatureFor(i, j) == LET ok == {t \in 1..NT : <<i, t>> \in ProductIdx /\ <<j, t>> \in ProductIdx}
+                        start == (i * 7 + j * 3 + Seed) % NT
+                        d == CHOOSE d \in 0..(NT - 1) : ((start + d) % NT) + 1 \in ok /\ \A d2 \in 0..(NT - 1) : ((start + d2) % NT) + 1 \in ok => d <= d2
+                    IN ((start + d) % NT) + 1
+EntryFor(s, t) == LET ok == {i \in 1..NE : <<i, s>> \in ProductIdx /\ <<i, t>> \in ProductIdx}
+                      start == (s * 5 + t * 3 + Seed) % NE
+                      d == CHOOSE d \in 0..(NE - 1) : ((start + d) % NE) + 1 \in ok /\ \A d2 \in 0..(NE - 1) : ((start + d2) % NE) + 1 \in ok => d <= d2
+                  IN ((start + d) % NE) + 1
+Less(p, q) == p[1] < q[1] \/ (p[1] = q[1] /\ p[2] < q[2])
+ProductCases ==
+   {Case(<<P(p)>>, "default") : p \in ProductIdx}
+   \cup (IF Pairs = "all" THEN {Case(<<P(pq[1]), P(pq[2])>>, "default") : pq \in {x \in ProductIdx \X ProductIdx : Less(x[1], x[2])}}
+         ELSE {Case(<<P(<<ij[1], FeatureFor(ij[1], ij[2])>>), P(<<ij[2], FeatureFor(ij[1], ij[2])>>)>>, "default") :
+                    ij \in {x \in (1..NE) \X (1..NE) : x[1] < x[2]}}
+              \cup {Case(<<P(<<EntryFor(st[1], st[2]), st[1]>>), P(<<EntryFor(st[1], st[2]), st[2]>>)>>, "default") :
+                    st \in {x \in (1..NT) \X (1..NT) : x[1] < x[2]}})
+
+MtOp(side, f) == Op(side, f)
+Other(side) == IF side = "mt_req" THEN Op("resp_body", "enum") ELSE Op("req_body", "enum")
+MediaCases ==
+   {Case(<<MtOp(o[1], o[2])>>, "default") : o \in SS!MtOps}
+   \cup {Case(<<MtOp(o[1], o[2]), Other(o[1])>>, "default") : o \in SS!MtOps}
+   \cup {Case(<<MtOp("mt_req", SS!MtName(<<d, "vendor_new">>)), MtOp("mt_resp", SS!MtName(<<d2, "vendor_new">>))>>, "default") :
+            <<d, d2>> \in {"exact", "appstar", "any"} \X {"exact", "appstar", "any"}}
+
+MtSeq == <<"exact.json", "appstar.vendor_new", "any.vendor_reg", "exact.vendor_new", "any.yaml", "exact.plain", "any.vendor_new", "appstar.problem">>
+ASSUME {MtSeq[i] : i \in DOMAIN MtSeq} \subseteq SS!MtFeatures
+ProductSeqIdx(k) == CHOOSE p \in ProductIdx : p[1] = (k % NE) + 1 /\ p[2] = ((k * 3 + Seed) % 11) + 1       \* (features 1..11 are usable behind every entry)
+CrossCases ==
+   {Case(<<Flat(i), P(ProductSeqIdx(i + Seed))>>, "default") : i \in 1..NF}
+   \cup {Case(<<Flat(i), MtOp(IF (i + Seed) % 2 = 0 THEN "mt_req" ELSE "mt_resp", MtSeq[((i + Seed) % Len(MtSeq)) + 1])>>, "default") : i \in 1..NF}
+
+InitCases ==
+   {Case(<<Op(e, "unique")>>, init) : e \in {"visit", "visit_typed", "param_query", "req_body", "resp_body"}, init \in {"unique_nil", "unique_custom"}}
+   \cup {Case(<<Op("vreq_body_unique", "-"), Op("visitjson", "-")>>, init) : init \in {"unique_nil", "unique_custom"}}
+   \cup {Case(<<Op(ef[1], ef[2]), Op("vresp", "-")>>, "details_off") :
+            ef \in {x \in {"visit", "param_query", "req_body", "resp_header"} \X {"enum", "anyof", "object"} : SS!Usable(x[1], x[2])}}
+
+Cases == FlatCases \cup ProductCases \cup MediaCases \cup CrossCases \cup InitCases
+
+VARIABLE c
+Init == c \in Cases
+Next == FALSE /\ c' = c
+Spec == Init /\ [][Next]_c
+Emit == CSVWrite("%1$s", <<ToJson(c)>>, "cases.ndjson")
 =============================================================================
